@@ -1686,6 +1686,13 @@ class CheckedCoverageInstrumentation(transformer.CheckedCoverageInstrumentationA
         instr_index: int,
         instr_original_index: int,
     ) -> None:
+        # Not every traced jump instruction has a target (e.g., BEFORE_WITH)
+        target = (
+            cfg.bytecode_cfg.get_block_index(instr.arg)
+            if isinstance(instr.arg, BasicBlock)
+            else None
+        )
+
         # Instrumentation before the original instruction
         node.basic_block[before(instr_index)] = self.instructions_generator.generate_instructions(
             InstrumentationSetupAction.NO_ACTION,
@@ -1699,7 +1706,7 @@ class CheckedCoverageInstrumentation(transformer.CheckedCoverageInstrumentationA
                     InstrumentationConstantLoad(value=instr.opcode),
                     InstrumentationConstantLoad(value=instr.lineno),
                     InstrumentationConstantLoad(value=instr_original_index),
-                    InstrumentationConstantLoad(value=cfg.bytecode_cfg.get_block_index(instr.arg)),  # type: ignore[arg-type]
+                    InstrumentationConstantLoad(value=target),
                 ),
             ),
             instr.lineno,
